@@ -38,7 +38,7 @@ def plan(tier, seed):
         for p in range(64):
             items.append({"n": 4, "lab": "distinct", "part": p, "parts": 64, "seed": seed, "only": ["refine"]})
     # hint neutrality through the evaluators / providers the library ships; the added hint has an EMPTY text (legal)
-    for mode in ("hardcoded", "cer", "methods"):
+    for mode in ("hardcoded", "cer", "methods", "cer-shared", "jsonfile"):
         for n in (1, 2) if tier == "quick" else (1, 2, 3):
             items.append({"fam": "modes", "mode": mode, "n": n, "seed": seed})
     for n, lab in BOUNDS[tier]:
